@@ -377,6 +377,7 @@ func resultOf(bad bool) interface{} {
 }
 
 func cbA(cb apientry.HandlerCBFunc) completer {
+	cbPresent = cb != nil
 	return func(e bool, bad bool) {
 		if e {
 			cb(errZoo, nil)
@@ -387,6 +388,7 @@ func cbA(cb apientry.HandlerCBFunc) completer {
 }
 
 func cbF(cb func(error, interface{})) completer {
+	cbPresent = cb != nil
 	return func(e bool, bad bool) {
 		if e {
 			cb(errZoo, nil)
@@ -397,9 +399,31 @@ func cbF(cb func(error, interface{})) completer {
 }
 
 var (
-	curBeh string
-	events []any
+	curBeh    string
+	events    []any
+	cbPresent bool        // set by cbA / cbF: the method being entered was handed a non-nil completion function
+	stored    []completer // completion functions kept by handlers (BDefer...), oldest first; per case
+	firing    bool        // a kept completion function is being run (OFire)
+	fired     []any       // what the recorders saw while firing
 )
+
+// keep stores the completion function the handler was given (if it was given one)
+func keep(comp completer, present bool) {
+	if comp != nil && present {
+		stored = append(stored, comp)
+	}
+}
+
+// recorder is the completion function the harness passes for the call at position pos
+func recorder(pos int64) apientry.HandlerCBFunc {
+	return func(e error, _ interface{}) {
+		if firing {
+			fired = append(fired, hx.C("FCall", pos, e != nil))
+		} else {
+			events = append(events, hx.C("EvComplete", e != nil))
+		}
+	}
+}
 
 func complete(c completer, e bool) {
 	if c != nil {
@@ -409,6 +433,8 @@ func complete(c completer, e bool) {
 
 // act is the body of every zoo method.
 func act(uid int64, isNil bool, get func() int64, comp completer) {
+	present := cbPresent
+	cbPresent = false
 	var seen any = "None"
 	if !isNil {
 		seen = hx.C("Some", get())
@@ -432,6 +458,14 @@ func act(uid int64, isNil bool, get func() int64, comp completer) {
 		if comp != nil {
 			comp(false, true)
 		}
+	case "BDefer":
+		keep(comp, present)
+	case "BOkDefer":
+		complete(comp, false)
+		keep(comp, present)
+	case "BDeferPanic":
+		keep(comp, present)
+		panic("zoo panic after keeping the completion function")
 	default:
 		panic("c13: behaviour " + curBeh)
 	}
@@ -525,7 +559,9 @@ func Exec(ops []hx.T) (norm []hx.T, obs []any, nontrivial bool, seenTags map[str
 			seenTags["obs:escaped-panic"] = true
 		}
 	}
-	for _, o := range ops {
+	stored, fired, firing, cbPresent = nil, nil, false, false
+	disps := map[string]as.IAPIDispatcher{} // one dispatcher per distinct collection list, reused
+	for pos, o := range ops {
 		switch o.Name {
 		case "OReg":
 			k := o.Int(0)
@@ -575,7 +611,7 @@ func Exec(ops []hx.T) (norm []hx.T, obs []any, nontrivial bool, seenTags map[str
 			curBeh = hx.AsTerm(o.Args[7]).Name
 			var cb apientry.HandlerCBFunc
 			if withCB {
-				cb = func(e error, _ interface{}) { events = append(events, hx.C("EvComplete", e != nil)) }
+				cb = recorder(int64(pos))
 			}
 			c := col(k)
 			tr, esc := guarded(func() { apientry.CallWithSerialize(c, ctx, route, data, cb, serOf(ser)) })
@@ -595,7 +631,7 @@ func Exec(ops []hx.T) (norm []hx.T, obs []any, nontrivial bool, seenTags map[str
 			curBeh = hx.AsTerm(o.Args[5]).Name
 			var cb apientry.HandlerCBFunc
 			if withCB {
-				cb = func(e error, _ interface{}) { events = append(events, hx.C("EvComplete", e != nil)) }
+				cb = recorder(int64(pos))
 			}
 			c := col(k)
 			tr, esc := guarded(func() { c.Call(ctx, route, arg, cb) })
@@ -615,7 +651,11 @@ func Exec(ops []hx.T) (norm []hx.T, obs []any, nontrivial bool, seenTags map[str
 				cs = append(cs, col(k))
 			}
 			events = []any{}
-			rsps, snap, ok := w.request(as.NewDispatcher(cs...), int32(rid), route, data)
+			key := fmt.Sprint(ks)
+			if disps[key] == nil {
+				disps[key] = as.NewDispatcher(cs...)
+			}
+			rsps, snap, ok := w.request(disps[key], int32(rid), route, data)
 			inv := events
 			events = nil
 			rl := []any{}
@@ -651,6 +691,43 @@ func Exec(ops []hx.T) (norm []hx.T, obs []any, nontrivial bool, seenTags map[str
 			norm = append(norm, hx.C("ODispatch", o.Args[0], rid, o.Args[2], o.Args[3], decodeTable("SProto", data, inUse), rawok,
 				hx.C("CTyp", int64(9)), o.Args[7]))
 			obs = append(obs, hx.C("BDisp", inv, rl, snap.fell, esc))
+		case "OFire":
+			n, kd := o.Int(0), hx.AsTerm(o.Args[1]).Name
+			fired = nil
+			esc := false
+			if n >= 0 && n < int64(len(stored)) {
+				comp := stored[n]
+				run := func() {
+					firing = true
+					defer func() { firing = false }()
+					comp(kd == "FErr", kd == "FBad")
+				}
+				if w == nil {
+					func() {
+						defer func() {
+							if r := recover(); r != nil {
+								esc = true
+							}
+						}()
+						run()
+					}()
+				} else {
+					// on the service goroutine, like a handler finishing its work later
+					rsps, panicked, ok := w.fire(run)
+					esc = panicked || !ok
+					for _, r := range rsps {
+						fired = append(fired, hx.C("FRsp", int64(r.ReqId), classify(r)))
+					}
+				}
+			}
+			d := fired
+			if d == nil {
+				d = []any{}
+			}
+			nontrivial = nontrivial || len(d) > 0
+			seenTags[fmt.Sprintf("obs:fire delivered=%d escaped=%v", len(d), esc)] = true
+			norm = append(norm, o)
+			obs = append(obs, hx.C("BFire", d, esc))
 		default:
 			panic("c13: unknown op " + o.Name)
 		}
@@ -696,6 +773,7 @@ func Run(cfg *hx.Config) error {
 	enumerateDispatch(thorough, emit)
 	enumerateSequences(thorough, emit)
 	enumerateRejections(thorough, emit)
+	enumerateOverlap(thorough, emit)
 	for i := 0; i < cfg.N; i++ {
 		if i%3 == 2 {
 			ops, tags := genDispatch(cfg)
